@@ -75,6 +75,25 @@ pub fn spaces(tier: Tier) -> Vec<Space<'static>> {
     let d2 = univ::d2();
     let p1 = pool.clone();
     sp.push(Space::new("d2-derived-args", d2.len() as u64, move |i, acc| check_doc(&d2[i as usize], &Opts { extremes: false, pool: p1.clone(), sets: false }, acc)));
+    // the same edits with the document given as JSON text (canonical, and a spelling with CRLF / TAB
+    // between tokens and short escapes): the text branch must denote the same edit
+    {
+        let mut td: Vec<RVal> = univ::d2().iter().cloned().collect();
+        td.extend(refmodel::gen::keyorder_docs());
+        let p7 = pool.clone();
+        sp.push(Space::new("documents given as JSON text (D2 and key-order objects, two spellings)", td.len() as u64 * 2, move |i, acc| {
+            let v = &td[(i / 2) as usize];
+            if !v.all_finite() {
+                return;
+            }
+            let text = if i % 2 == 0 { refmodel::text::print(v) } else { refmodel::text::print_styled(v, 3) };
+            let o = Opts { extremes: false, pool: p7.clone(), sets: false };
+            let ctx = || json!({"doc_text": text});
+            for c in crate::calls::edit_calls_from(v, &o, text.clone().into_bytes()) {
+                judge(&c, acc, &ctx);
+            }
+        }));
+    }
     let ko = refmodel::gen::keyorder_docs();
     let p4 = pool.clone();
     sp.push(Space::new("key-order objects (byte order != length order != case order)", ko.len() as u64, move |i, acc| check_doc(&ko[i as usize], &Opts { extremes: false, pool: p4.clone(), sets: false }, acc)));
